@@ -189,7 +189,9 @@ fn fence_acq(execution: &mut Execution) {
     for state in execution.objects.iter_mut::<State>() {
         // Iterate all the stores
         for store in state.stores_mut() {
-            if !store.first_seen.is_seen_by_current(&execution.threads) {
+            // Only loads of the fencing thread itself count: a store read by
+            // another thread in the current causality is not acquired.
+            if !store.first_seen.is_seen_by_thread(&execution.threads) {
                 continue;
             }
 
@@ -950,6 +952,10 @@ impl FirstSeen {
         }
 
         false
+    }
+
+    fn is_seen_by_thread(&self, threads: &thread::Set) -> bool {
+        self.0[threads.active_id().as_usize()] != u16::MAX
     }
 
     fn is_seen_before_yield(&self, threads: &thread::Set) -> bool {
